@@ -77,6 +77,9 @@ NON_TEMPLATES = {'eof', 'bof', 'bol', 'eol', 'eolf', 'success', 'failure', 'any'
 SUCCESS_RES = X('tao::pegtl::internal::result_on_found::success')
 FAILURE_RES = X('tao::pegtl::internal::result_on_found::failure')
 PEEK_CHAR = X('tao::pegtl::internal::peek_char')
+PEEK_UTF8 = X('tao::pegtl::internal::peek_utf8')
+TYPE_MAX = {'std::uint8_t': 255, 'std::uint16_t': 65535, 'std::uint32_t': 4294967295, 'std::uint64_t': 18446744073709551615,
+            'unsigned char': 255, 'unsigned short': 65535, 'unsigned': 4294967295, 'unsigned int': 4294967295}
 
 
 def I(name, *args):
@@ -168,6 +171,12 @@ def public_base(t: T):
         return I('try_catch_raise_nested', X('std::exception'), *a)
     if n == 'action':
         return I('action', *a)
+    if n == 'utf8::range':
+        return I('range', SUCCESS_RES, PEEK_UTF8, *a)
+    if n == 'utf8::not_range':
+        return I('range', FAILURE_RES, PEEK_UTF8, *a)
+    if n == 'maximum_rule':
+        return I('maximum_rule_atom', *a)
     raise ValueError(f"unknown public rule {n}")
 
 
@@ -249,6 +258,12 @@ def body_of_internal(t: T):
         if not cs:
             return ('atom', ['failure']) if found else ('atom', ['any'])
         return ('atom', ['one', found, cs])
+    if n == 'maximum_rule_atom':
+        return ('atom', ['maxDigits', TYPE_MAX[a[0][1]] if len(a) == 1 else a[1][1]])
+    if n == 'range' and a[1] == PEEK_UTF8:
+        lo, hi = [v for (k, v) in a[2:] if k == 'n']
+        assert lo < hi
+        return ('atom', ['utf8Range', a[0] == SUCCESS_RES, lo, hi])
     if n == 'range':
         found = (a[0] == SUCCESS_RES)
         lo, hi = chars(a[2:])
@@ -503,8 +518,10 @@ class Grammar:
                 return f"atom ranges {len(p[1])} {flat} {'-' if p[2] is None else p[2]}"
             if a in ('string', 'istring'):
                 return f"atom {a} {len(p[1])} " + " ".join(map(str, p[1]))
-            if a in ('bytes', 'require'):
+            if a in ('bytes', 'require', 'maxDigits'):
                 return f"atom {a} {p[1]}"
+            if a == 'utf8Range':
+                return f"atom utf8Range {int(p[1])} {p[2]} {p[3]}"
             return f"atom {a}"
         if k in ('seq', 'sor', 'starPartial', 'partialR'):
             name = 'partial' if k == 'partialR' else k
